@@ -204,6 +204,20 @@ def run_poll_minimums(c):
         cases.append(('fibonacci', 'fib %d' % n, 'fib 1', [sx([Sym('polls-fib'), n])], [sx([Sym('polls-fib'), 1])]))
     for cnt, f in ((1, 6), (1, 600), (3, 6), (2, 20), (5, 4)):
         cases.append(('new_die', '%dd%d' % (cnt, f), 'd1', [sx([Sym('polls-die'), cnt, f])], [sx([Sym('polls-die'), 1, 1])]))
+    # the loops repaired in 30274a2 / a55ff29 / f8353e2: removing one of the new polls is an alarm
+    for n in (1000, 37):
+        cases.append(('date_days', '@2000-01-01 + %d days' % n, '@2000-01-01 + 1 day', [sx([Sym('polls-date-days'), n])], [sx([Sym('polls-date-days'), 1])]))
+        cases.append(('date_days', '@2000-01-01 - %d days' % n, '@2000-01-01 - 1 day', [sx([Sym('polls-date-days'), n])], [sx([Sym('polls-date-days'), 1])]))
+    cases.append(('date_weeks', '@2000-01-01 - 200 weeks', '@2000-01-01 - 1 week', [sx([Sym('polls-date-days'), 200])], [sx([Sym('polls-date-days'), 1])]))
+    for n in (1201, 30, 11):
+        cases.append(('date_months', '@2000-01-01 - %d months' % n, '@2000-01-01 - 1 month', [sx([Sym('polls-date-months'), n])], [sx([Sym('polls-date-months'), 1])]))
+    cases.append(('date_years', '@2000-01-01 - 300 years', '@2000-01-01 - 1 year', [sx([Sym('polls-date-months'), 3600])], [sx([Sym('polls-date-months'), 12])]))
+    for n in (6400, 64 * 1000, 129):
+        cases.append(('lshift_n', '(1 << %d) == 0' % n, '(1 << 64) == 0', [sx([Sym('polls-lshift'), n])], [sx([Sym('polls-lshift'), 64])]))
+    for f1, f2 in ((40, 40), (6, 6), (3, 50)):
+        cases.append(('dist_bop', 'd%d + d%d' % (f1, f2), 'd1 + d1',
+                      [sx([Sym('polls-die'), 1, f1]), sx([Sym('polls-die'), 1, f2]), sx([Sym('polls-bop'), f1, f2])],
+                      [sx([Sym('polls-die'), 1, 1]), sx([Sym('polls-die'), 1, 1]), sx([Sym('polls-bop'), 1, 1])]))
     il = c.impl('eval', [polls_req(0, [], x, -1) for cs in cases for x in (cs[1], cs[2])])
     ml = [m for cs in cases for m in cs[3] + cs[4]]
     mo = iter(c.model('eval', ml))
@@ -224,7 +238,12 @@ def run_poll_minimums(c):
 
 
 def run_unpolled_replays(c):
-    """(a) the loops without a poll, replayed on the real code"""
+    """(a) the loops that had no poll (three repaired, witnesses kept in corpus/C07/fixed_*.json: a loop that stops
+    polling again is a VIOLATION) and the parser (open), replayed on the real code with a small and a large trip count"""
+    import os, vlib
+    for fn in sorted(os.listdir(os.path.join(vlib.ROOT, 'corpus', 'C07'))):
+        if fn.startswith('fixed_') or fn.startswith('witness_'):
+            c.extra.setdefault('witness_files', []).append(fn)
     thorough = c.tier == 'thorough'
     fam = [
         # class, description, small input, big input, expected growth of the loop's trip count
